@@ -4,6 +4,7 @@
 -/
 import Khttp.Model.Swar
 import Khttp.Model.Headers
+import Khttp.Model.Method
 import Khttp.Gen.Consts
 namespace Khttp
 
@@ -11,16 +12,6 @@ namespace Khttp
 def isValidUriByte (b : UInt8) : Bool := Gen.uriValidBytes.contains b
 /-- `is_valid_header_field_byte` (table generated from `make_header_field_byte_mask`) -/
 def isFieldByte (b : UInt8) : Bool := Gen.fieldValidBytes.contains b
-
-inductive Method where
-  | get | post | head | put | patch | delete | options | trace
-  | custom (s : Bytes)
-  deriving Repr, DecidableEq
-
-def Method.asBytes : Method → Bytes
-  | .get => str "GET" | .post => str "POST" | .head => str "HEAD" | .put => str "PUT"
-  | .patch => str "PATCH" | .delete => str "DELETE" | .options => str "OPTIONS" | .trace => str "TRACE"
-  | .custom s => s
 
 /-- `RequestUri { full, path_i_start, path_i_end }` -/
 structure Uri where
